@@ -397,9 +397,11 @@ func (c *Ctx) panicFreedom(rule string, fns []*ssa.Function) (nOb, nOK int) {
 			R.Fail(rule, key, c.at(ob.in), "run-time check cannot fail: "+ob.kind+" "+ob.what, "undischarged: no dominating guard, definition or contract bounds this "+ob.kind+" - a client-controlled value can make it panic (index / slice out of range, negative size)")
 		}
 	}
-	// prove the lifted preconditions at every call site
+	// prove the lifted preconditions at every call site (a helper that merely forwards its own parameter
+	// lifts the precondition on to its callers)
 	seen := map[string]bool{}
-	for _, p := range needed {
+	for qi := 0; qi < len(needed) && qi < 64; qi++ {
+		p := needed[qi]
 		k := fkey(p.fn) + ":" + p.param.Name() + p.kind
 		if seen[k] {
 			continue
@@ -426,6 +428,14 @@ func (c *Ctx) panicFreedom(rule string, fns []*ssa.Function) (nOb, nOK int) {
 			}
 			t, off := l.Expr(arg)
 			ok := l.Prove(site, core.Zero, t, off)
+			if !ok {
+				if fwd, isParam := core.StripConv(arg).(*ssa.Parameter); isParam && !token.IsExported(caller.Name()) && caller.Parent() == nil && len(c.P.CallSitesOf(caller)) > 0 {
+					needed = append(needed, pre{caller, fwd, ">=0"})
+					nOK++
+					R.OK(rule, fkey(caller)+":precondition:"+fkey(p.fn)+"("+p.param.Name()+">=0)", c.at(site), "call site establishes the callee's precondition "+p.param.Name()+" >= 0", "the argument is the caller's own parameter "+fwd.Name()+": the precondition is lifted on to the callers of "+fkey(caller))
+					continue
+				}
+			}
 			if ok {
 				nOK++
 			}
